@@ -29,7 +29,9 @@ ASSUMPTIONS = [
     "equality is counted as 'merged by rounding' (pairs touched by a merge are left out of the dominance comparison), a reversal or a new "
     "strict preference out of an equality is a violation in every family",
     "sign domains are tracked abstractly (positive / non-negative / any) through a sequence; a step is only drawn when its domain holds",
-    "generator guards of DESIGN section 14: criteria are either exactly constant or clearly non-constant",
+    "dyadic criteria are either exactly constant or clearly non-constant (DESIGN section 14); the float family also holds near-ties "
+    "(neighbouring doubles) on purpose: there scikit-learn's near-constant thresholds may replace a scale by 1, which changes the scale "
+    "only, never the order, and only dominance tables (not cells) are compared with the model",
 ]
 PARTIAL = ("rounding can merge two distinct values into one (strict becomes equal); reported separately as 'merged by rounding', never as "
            "reversal. The model is exact (Rat) except for VectorScaler / StandarScaler pipelines, which run at Lean Float")
